@@ -61,6 +61,6 @@ def run(tier, seed):
     t0 = time.time()
     outs = run_cases("C01", cases(tier, seed), attribute=ATTR)
     return finish("C01", tier, seed, t0, outs, RULE,
-                  required_bits=["steal", "staged_steal", "migration", "recycle_reuse", "helper_retry", "staged"],
+                  required_bits=["steal", "staged_steal", "migration", "recycle_reuse", "helper_retry", "staged", "pending_boost_phase"],
                   assumptions=["interleavings are sampled, not enumerated", "the hook handler only delays OS threads",
                                "TSan flavour runs with pending-task stealing disabled by pika itself"])
